@@ -149,12 +149,40 @@ def lib_exception_sig(e):
     return f"exc.{type(e).__name__}@{where}", where != "harness"
 
 
+class CaseTimeout(BaseException):
+    pass
+
+
+def _alarm(*a):
+    raise CaseTimeout()
+
+
 def safe_run(prop, spec):
     """run_case with a last-resort guard.  An exception that escapes run_case is a library failure
     when its innermost frames are in the library (the generators only produce in-domain inputs) and a
-    harness error otherwise."""
+    harness error otherwise.  A case that exceeds the per-case wall budget (VERIF_CASE_TIMEOUT seconds,
+    default 180) is abandoned and counted as inconclusive - never as a violation."""
+    import signal
+
+    limit = int(os.environ.get("VERIF_CASE_TIMEOUT", "180"))
+    use_alarm = limit > 0 and hasattr(signal, "SIGALRM")
     try:
-        return prop.run_case(spec), None
+        if use_alarm:
+            try:
+                signal.signal(signal.SIGALRM, _alarm)
+                signal.alarm(limit)
+            except ValueError:  # not in the main thread
+                use_alarm = False
+        try:
+            return prop.run_case(spec), None
+        finally:
+            if use_alarm:
+                signal.alarm(0)
+    except CaseTimeout:
+        r = Result()
+        r.rejected = "inconclusive: per-case time budget exceeded"
+        r.classes.append("inconclusive_budget")
+        return r, None
     except BaseException as e:  # noqa
         if isinstance(e, (KeyboardInterrupt, SystemExit)):
             raise
